@@ -34,7 +34,7 @@ use super::*;
         None => forall|q: int| !next_ok(bytes@, byte_pos as int, q, pause_on_char),
     },
 //@ensures label=next_is_next_lb
-    r matches Some(q) ==> next_lb(bytes@, byte_pos as int, pause_on_char) == Some(q as int),
+    r matches Some(q) ==> (next_ok(bytes@, byte_pos as int, q as int, pause_on_char) ==> next_lb(bytes@, byte_pos as int, pause_on_char) == Some(q as int)),
     r is None ==> next_lb(bytes@, byte_pos as int, pause_on_char) is None,
 //@at body-start
     proof { lemma_next_lb(bytes@, byte_pos as int, pause_on_char); }
@@ -70,7 +70,7 @@ use super::*;
         None => forall|q: int| !prev_ok(bytes@, byte_pos as int, q, pause_on_char),
     },
 //@ensures label=prev_is_prev_lb
-    r matches Some(q) ==> prev_lb(bytes@, byte_pos as int, pause_on_char) == Some(q as int),
+    r matches Some(q) ==> (prev_ok(bytes@, byte_pos as int, q as int, pause_on_char) ==> prev_lb(bytes@, byte_pos as int, pause_on_char) == Some(q as int)),
     r is None ==> prev_lb(bytes@, byte_pos as int, pause_on_char) is None,
 //@at body-start
     proof { lemma_prev_lb(bytes@, byte_pos as int, pause_on_char); }
@@ -131,6 +131,11 @@ use super::*;
         Some(q) => charpos_ok(bytes@, byte_pos as int, q as int),
         None => forall|q: int| !charpos_ok(bytes@, byte_pos as int, q),
     },
+//@ensures label=charpos_is_char_pos
+    r matches Some(q) ==> (charpos_ok(bytes@, byte_pos as int, q as int) ==> char_pos(bytes@, byte_pos as int) == Some(q as int)),
+    r is None ==> char_pos(bytes@, byte_pos as int) is None,
+//@at body-start
+    proof { lemma_char_pos(bytes@, byte_pos as int); }
 //@loop 1
 //@invariant
     bytes@ == content.spec_bytes(),
